@@ -25,7 +25,12 @@ def load_rules(prop: str):
 
 
 def run_one(prop: str, tier: str, repo_root: str | None = None) -> int:
-    mod = load_rules(prop)
+    try:
+        mod = load_rules(prop)
+    except Exception as e:  # a checker that cannot be loaded is broken, not a violation
+        traceback.print_exc()
+        print(f"ANALYSIS-ERROR property={prop} rules could not be loaded: {type(e).__name__}: {e}")
+        return 2
     if mod is None:
         print(f"ANALYSIS-ERROR property={prop} no rules implemented")
         return 2
